@@ -297,12 +297,16 @@ def check_merged(out: Path, case, assoc_out=None):
                     except Exception as e:
                         why = f'raised {type(e).__name__}: {e}'
                     if why:
-                        devs.append(('C08', 'merged-getflight', f'merged get_flight({fid}) should be item {j} of input {k}: {why}'))
+                        # lookup across the parts of a merged store is a clause of C08 and of C09
+                        for prop in ('C08', 'C09'):
+                            devs.append((prop, 'merged-getflight', f'merged get_flight({fid}) should be item {j} of input {k}: {why}'))
             try:
                 if ts.get_flight(5) is not None:
-                    devs.append(('C08', 'merged-getflight-absent', 'merged get_flight(5) returned a trajectory for an identifier never added'))
+                    for prop in ('C08', 'C09'):
+                        devs.append((prop, 'merged-getflight-absent', 'merged get_flight(5) returned a trajectory for an identifier never added'))
             except Exception as e:
-                devs.append(('C08', 'merged-getflight-absent', f'merged get_flight(5) raised {type(e).__name__}: {e}'))
+                for prop in ('C08', 'C09'):
+                    devs.append((prop, 'merged-getflight-absent', f'merged get_flight(5) raised {type(e).__name__}: {e}'))
     finally:
         try:
             ts.close()
